@@ -23,7 +23,8 @@ FLOORS = {"sources": 100, "kernel_calls": 2500, "hit_counters_checked": 100000, 
           "n_not_multiple_of_block": 150, "multi_block_kernels": 20, "include_lines": 30, "context_lines": 100,
           "passthrough_lines_checked": 2000, "nested_block_cases": 8, "launch_geometries_seen": 100,
           "expression_limits": 60, "kernels_inside_included_file": 40,
-          "signed_index_arithmetic_checked": 50000}
+          "signed_index_arithmetic_checked": 50000, "directives_after_a_comment": 60,
+          "files_included_by_two_directives": 20}
 FLOORS.update({"target:" + t: 300 for t in TARGETS})
 RULE = ("generated kernel sources from the annotation vocabulary (1-3 vectorize_over/end_vectorize blocks, "
         "limits that are identifiers or blank-free expressions, the whole kernel optionally inside an included file, "
@@ -74,19 +75,31 @@ def gen_source(rng, kname, folder, nested=False):
         fn = f"inc_{uid}_{k}.h"
         with open(os.path.join(folder, fn), "w") as f:
             f.write(f"#define XV_INC_{uid}_{k} {40 + k}\n/* from {fn} */\n")
-        L.append(f"//include_file {fn} for_context {' '.join(ctxs)}")
+        if len(ctxs) >= 2 and rng.random() < 0.4:
+            # the same file named by two directives with different context lists
+            cut = rng.randint(1, len(ctxs) - 1)
+            L.append(f"//include_file {fn} for_context {' '.join(ctxs[:cut])}")
+            L.append(f"//include_file {fn} for_context {' '.join(ctxs[cut:])}")
+            meta["split_includes"] = meta.get("split_includes", 0) + 1
+        else:
+            L.append(f"//include_file {fn} for_context {' '.join(ctxs)}")
         meta["incs"].append((k, ctxs))
     plain(f"/* unannotated comment {uid} a */")
+    plain(f"/*unused*/ /*in*/ static const char XV_TAG_{uid}[] = \"/*hdr*/\"; /*out*/")
     L.append("/*gpukern*/")
     args = [f"/*gpuglmem*/ int32_t* /*restrict*/ hits{b}" for b in range(nb)]
     L.append(f"void {kname}({', '.join(args)}, /*gpuglmem*/ double* dv, /*gpuglmem*/ int32_t* flags, const int n, const int m1, const int m2){{")
     plain(f"  int unann_{uid} = 3; (void)unann_{uid};")
+    plain(f"  flags[3] = (int)sizeof(XV_TAG_{uid});  /*oneword*/")
 
     def ctx_line(inside):
         r = rng.random()
         if r < 0.7:
             t = rng.choice(TARGETS)
-            L.append(f"  flags[0] |= {BIT[t]}; //only_for_context {t}")
+            note = rng.choice(["", "", " // marker for the self test", " /* c */ // x"])
+            if note:
+                meta["commented_directives"] = meta.get("commented_directives", 0) + 1
+            L.append(f"  flags[0] |= {BIT[t]};{note} //only_for_context {t}")
             meta["in_bits" if inside else "out_bits"][t] |= BIT[t]
         else:
             ts = rng.sample(TARGETS, 2)
@@ -169,6 +182,8 @@ def run_case(w, rng):
     w.count("include_lines", len(meta["incs"]))
     w.count("context_lines", meta.get("nctx", 0))
     w.count("expression_limits", meta.get("expr_limits", 0))
+    w.count("directives_after_a_comment", meta.get("commented_directives", 0))
+    w.count("files_included_by_two_directives", meta.get("split_includes", 0))
     w.count("kernels_inside_included_file", int(meta["kernel_in_include"]))
     nvals = sorted({0, 1, 2, max(block - 1, 0), block, block + 1, 2 * block + 3, 1000})
     try:
@@ -261,6 +276,8 @@ def run_case(w, rng):
                         want1 |= bit
                 if int(flags[1]) != want1:
                     viol(f"multi-context-line-wrong|{target}", f"{case}: flags[1] {int(flags[1])}, expected {want1}")
+                if ran and int(flags[3]) != 8:
+                    viol(f"unannotated-text-changed-meaning|{target}", f"{case}: sizeof of a string literal holding a one-word block comment is {int(flags[3])}, not 8")
                 for k, ctxs in meta["incs"]:
                     wantk = (40 + k) if (target in ctxs and ran) else 0
                     if int(flags[4 + k]) != wantk:
